@@ -33,6 +33,22 @@ impl<T> PrimaryArc<T> {
     pub fn try_unwrap(this: Self) -> Result<T, Arc<T>> {
         Arc::try_unwrap(this.inner)
     }
+
+    /// Verification hook: address of the shared object.
+    #[cfg(feature = "verif_hooks")]
+    #[inline]
+    pub fn verif_addr(&self) -> usize {
+        Arc::as_ptr(&self.inner) as usize
+    }
+}
+
+#[cfg(feature = "verif_hooks")]
+impl<T> PrimaryArc<Mutex<T>> {
+    /// Verification hook: try to lock the mutex without creating a replica.
+    #[inline]
+    pub fn verif_try_lock(&self) -> Option<tokio::sync::MutexGuard<'_, T>> {
+        self.inner.try_lock().ok()
+    }
 }
 
 /// A [ReplicaArc] is an [Arc] that cannot be cloned further.
@@ -60,6 +76,8 @@ impl<T> ReplicaArc<Mutex<T>> {
     /// Lock the mutex and return a [OwnedMutexGuard].
     #[inline]
     pub async fn lock_owned(self) -> ReplicaOwnedMutexGuard<T> {
+        #[cfg(feature = "verif_hooks")]
+        crate::verif_hooks::before_key_wait(&*self.inner);
         ReplicaOwnedMutexGuard {
             inner: self.inner.lock_owned().await,
         }
@@ -67,6 +85,14 @@ impl<T> ReplicaArc<Mutex<T>> {
 
     #[inline]
     pub fn blocking_lock_owned(self) -> ReplicaOwnedMutexGuard<T> {
+        #[cfg(feature = "verif_hooks")]
+        {
+            crate::verif_hooks::before_key_wait(&*self.inner);
+            return ReplicaOwnedMutexGuard {
+                inner: crate::verif_hooks::block_on(self.inner.lock_owned()),
+            };
+        }
+        #[cfg(not(feature = "verif_hooks"))]
         ReplicaOwnedMutexGuard {
             inner: self.inner.blocking_lock_owned(),
         }
@@ -79,6 +105,8 @@ impl<T> ReplicaArc<Mutex<T>> {
         //      so the `None` entry isn't left behind, but it still violates the invariant.
 
         // This function is in `PrimaryArc` not `ReplicaArc` because it needs to call `Arc::clone`.
+        #[cfg(feature = "verif_hooks")]
+        crate::verif_hooks::before_key_try(&*self.inner);
         let locked = Arc::clone(&self.inner).try_lock_owned();
         match locked {
             Ok(inner) => Ok(ReplicaOwnedMutexGuard { inner }),
